@@ -15,6 +15,7 @@ import (
 	"testing"
 
 	"github.com/php-any/origami/data"
+	"github.com/php-any/origami/node"
 	"github.com/php-any/origami/utils"
 	"github.com/php-any/origami/verifharness/hx"
 	"github.com/php-any/origami/verifsim"
@@ -117,9 +118,15 @@ var accessors = map[string]string{
 
 var accNames []string
 
+// accessorLabels: segment kinds whose value is request data (label = accessor name without "$")
+var accessorLabels = map[string]bool{}
+
+var idRe = regexp.MustCompile(`v(\d+)`)
+
 func init() {
 	for k := range accessors {
 		accNames = append(accNames, k)
+		accessorLabels[strings.ReplaceAll(k, "$", "")] = true
 	}
 	sort.Strings(accNames)
 }
@@ -511,6 +518,10 @@ func exec(t *testing.T, x any, s hx.Sched) *hx.Outcome {
 	w := x.(*W)
 	o := &hx.Outcome{}
 	ensureFiles()
+	// every case starts from what a fresh process has: the superglobal caches are package-level
+	// variables that annotation-controller routes never reset, so they would carry one case's last
+	// request into the next case of this worker (process history, C20's subject: its leak probes list it)
+	node.ResetSuperglobals()
 	appDir := ""
 	if w.Annot {
 		appSeq++
@@ -565,6 +576,29 @@ func exec(t *testing.T, x any, s hx.Sched) *hx.Outcome {
 				return o
 			}
 		}
+		// absolute oracle for request data (no concurrency involved): whatever a handler reads through
+		// the request object or the superglobals carries this request's own id (x=v<i>, c=cv<i>, p=pv<i>,
+		// X-T: tv<i>, ...), never another request's, also when requests are served one after another
+		for _, sv := range []obs{solo[i], solo2[i]} {
+			for _, seg := range strings.Split(sv.Body+sv.xout, ";") {
+				lab, val, ok := strings.Cut(seg, "=")
+				if !ok || !strings.Contains(lab, ".") {
+					continue
+				}
+				_, kind, _ := strings.Cut(lab, ".")
+				if _, isAcc := accessorLabels[kind]; !isAcc {
+					continue
+				}
+				for _, m := range idRe.FindAllStringSubmatch(val, -1) {
+					if m[1] != w.Reqs[i].X[1:] {
+						o.Violate("C11/sequential/foreign-request-data/"+kind, fmt.Sprintf("request %d (%s) served ALONE (requests one after another on a fresh VM) read %s = %q, which carries the data of request %s; script: %s", i, request(w, i).RequestURI, kind, val, m[1], src))
+					}
+				}
+			}
+		}
+		if len(o.Violations) > 0 {
+			return o
+		}
 		if solo[i].String() != solo2[i].String() {
 			// generator self-check: the handler is not a pure function of its request
 			o.Discarded = true
@@ -606,7 +640,11 @@ func exec(t *testing.T, x any, s hx.Sched) *hx.Outcome {
 	}
 	o.Hash = verifsim.Mix(hx.HashResult(res), hx.HashStrings(hs...))
 	o.NonTrivial = res.Switches > int64(len(w.Reqs))
-	o.Sample = map[string]any{"workload": w, "concurrent": hs, "script": src, "outcome": res.Outcome}
+	var ss []string
+	for i := range solo {
+		ss = append(ss, solo[i].String())
+	}
+	o.Sample = map[string]any{"workload": w, "concurrent": hs, "alone": ss, "script": src, "outcome": res.Outcome}
 	for _, p := range res.Panics {
 		o.Violate(hx.PanicSig("C11", p), "client task panicked outside the handler: "+p.Value)
 	}
